@@ -232,8 +232,10 @@ class NpProxy(object):
     @_ov
     def isnan(self, a):
         if is_sym(a):
-            # A1: symbolic reals are never NaN
-            return np.zeros(np.shape(asobj(a)), dtype=bool) if np.shape(asobj(a)) else False
+            # A1: symbolic reals are never NaN; concrete float NaNs stored in an object array are
+            ao = asobj(a)
+            out = np.array([isinstance(v, (float, np.floating)) and v != v for v in ao.ravel()], dtype=bool).reshape(ao.shape)
+            return out if ao.shape else bool(out)
         return np.isnan(a)
 
     @_ov
@@ -526,7 +528,11 @@ PINV_EXACT = [False]     # when set: closed rational matrices are inverted exact
 
 
 def _closed_fraction(v):
+    """exact value of a closed entry: Fraction, or (Fraction, Fraction) for a complex one; None if not closed"""
     from fractions import Fraction
+    if isinstance(v, C):
+        a, b = _closed_fraction(v.re), _closed_fraction(v.im)
+        return None if a is None or b is None else (a, b)
     if isinstance(v, R):
         t = z3.simplify(v.t)
         return t.as_fraction() if z3.is_rational_value(t) else None
@@ -534,32 +540,37 @@ def _closed_fraction(v):
         return Fraction(int(v))
     if isinstance(v, (float, np.floating)):
         return Fraction(float(v))
+    if isinstance(v, (complex, np.complexfloating)):
+        return (Fraction(float(v.real)), Fraction(float(v.imag)))
     return None
 
 
 def _exact_inverse(m):
-    from fractions import Fraction
+    """exact inverse of a closed rational (real or complex) matrix (sympy, exact arithmetic): an exact instance of the
+    pinv contract for non-singular M"""
+    import sympy
     n = m.shape[0]
-    A = [[_closed_fraction(m[i, j]) for j in range(n)] for i in range(n)]
-    if any(v is None for row in A for v in row):
+    vals = [[_closed_fraction(m[i, j]) for j in range(n)] for i in range(n)]
+    if any(v is None for row in vals for v in row):
         return None
-    I = [[Fraction(int(i == j)) for j in range(n)] for i in range(n)]
-    for c in range(n):
-        piv = next((r for r in range(c, n) if A[r][c] != 0), None)
-        if piv is None:
-            return None
-        A[c], A[piv] = A[piv], A[c]; I[c], I[piv] = I[piv], I[c]
-        pv = A[c][c]
-        A[c] = [v / pv for v in A[c]]; I[c] = [v / pv for v in I[c]]
-        for r in range(n):
-            if r != c and A[r][c] != 0:
-                fct = A[r][c]
-                A[r] = [a - fct * b for a, b in zip(A[r], A[c])]
-                I[r] = [a - fct * b for a, b in zip(I[r], I[c])]
+    cplx = any(isinstance(v, tuple) for row in vals for v in row)
+
+    def sy(v):
+        if isinstance(v, tuple):
+            return sympy.Rational(v[0].numerator, v[0].denominator) + sympy.I * sympy.Rational(v[1].numerator, v[1].denominator)
+        return sympy.Rational(v.numerator, v.denominator)
+    M = sympy.Matrix(n, n, lambda i, j: sy(vals[i][j]))
+    if M.det() == 0:
+        return None
+    Mi = M.inv()
+    from fractions import Fraction
     out = np.empty((n, n), dtype=object)
     for i in range(n):
         for j in range(n):
-            out[i, j] = R(I[i][j])
+            e = sympy.nsimplify(Mi[i, j]) if False else sympy.simplify(Mi[i, j])
+            re_, im_ = sympy.re(e), sympy.im(e)
+            fr = lambda q: Fraction(int(sympy.Rational(q).p), int(sympy.Rational(q).q))
+            out[i, j] = C(R(fr(re_)), R(fr(im_))) if cplx else R(fr(re_))
     return out.view(SymArr)
 
 
